@@ -139,6 +139,15 @@ local function mk(id, res)
   emit("mark", id)
   return o
 end
+local function mklate(id)
+  -- the metatable gets its __gc after it was first attached: marked when it is attached again
+  local mt = {}
+  local o = setmetatable({id = id}, mt)
+  mt.__gc = function(o) emit("gc", o.id, inctx()) end
+  setmetatable(o, mt)
+  emit("mark", id)
+  return o
+end
 local function mkr(id)
   local mt
   mt = {__gc = function(o) o.n = o.n + 1 emit("gcr", o.id, o.n) if o.n == 1 then setmetatable(o, mt) emit("rearm", o.id) end end}
@@ -176,10 +185,18 @@ func (g *gcGen) stmts(n int) {
 		switch g.t.Weighted(w...) {
 		case 0: // dropped table with finalizer
 			g.nid++
-			g.ln(`do local o = mk(%d) end  -- dropped`, g.nid)
+			if g.t.Chance(1, 5) {
+				g.ln(`do local o = mklate(%d) end  -- dropped`, g.nid)
+			} else {
+				g.ln(`do local o = mk(%d) end  -- dropped`, g.nid)
+			}
 		case 1: // kept table
 			g.nid++
-			g.ln(`KEEP[#KEEP + 1] = mk(%d)  -- kept`, g.nid)
+			if g.t.Chance(1, 5) {
+				g.ln(`KEEP[#KEEP + 1] = mklate(%d)  -- kept`, g.nid)
+			} else {
+				g.ln(`KEEP[#KEEP + 1] = mk(%d)  -- kept`, g.nid)
+			}
 		case 2: // dropped userdata (release, maybe gc)
 			g.nid++
 			g.ln(`do local u = ud(%d, %v) end  -- dropped`, g.nid, g.t.Chance(1, 2))
@@ -451,6 +468,9 @@ func runGC(ctx *core.RunCtx) {
 		case strings.Contains(l, "mkr("):
 			fmt.Sscanf(l[strings.Index(l, "mkr(")+4:], "%d", &id)
 			objs[id] = &info{rearm: true, kept: strings.Contains(l, "-- kept")}
+		case strings.Contains(l, "mklate("):
+			fmt.Sscanf(l[strings.Index(l, "mklate(")+7:], "%d", &id)
+			objs[id] = &info{hasGC: true, kept: strings.Contains(l, "-- kept")}
 		case strings.Contains(l, "= mk(") || strings.HasPrefix(l, "do local o = mk("):
 			fmt.Sscanf(l[strings.Index(l, "mk(")+3:], "%d", &id)
 			objs[id] = &info{hasGC: true, kept: strings.Contains(l, "-- kept"), res: strings.Contains(l, "true)"), remark: strings.Contains(l, "-- remarked")}
